@@ -139,7 +139,9 @@ fn index(buf: &[u8], bounds: &mut Bounds) -> io::Result<()> {
         let start = offset + (prev_buf_len - buf.len());
         let end = start + len;
 
-        *buf = &buf[len..];
+        *buf = buf
+            .get(len..)
+            .ok_or_else(|| io::Error::from(io::ErrorKind::UnexpectedEof))?;
 
         Ok((start, end))
     }
@@ -158,7 +160,9 @@ fn index(buf: &[u8], bounds: &mut Bounds) -> io::Result<()> {
         let start = offset + (prev_buf_len - buf.len());
         let end = start + len;
 
-        *buf = &buf[len..];
+        *buf = buf
+            .get(len..)
+            .ok_or_else(|| io::Error::from(io::ErrorKind::UnexpectedEof))?;
 
         Ok(end)
     }
@@ -171,6 +175,11 @@ fn index(buf: &[u8], bounds: &mut Bounds) -> io::Result<()> {
     // SAFETY: `src` is 2 bytes.
     let allele_count = usize::from(u16::from_le_bytes(src.try_into().unwrap()));
 
+    // The reference bases are the first allele.
+    let alternate_allele_count = allele_count
+        .checked_sub(1)
+        .ok_or_else(|| io::Error::new(io::ErrorKind::InvalidData, "invalid allele count"))?;
+
     let mut i = IDS_START_INDEX;
     let mut buf = &buf[i..];
 
@@ -182,7 +191,7 @@ fn index(buf: &[u8], bounds: &mut Bounds) -> io::Result<()> {
     bounds.reference_bases_range = start..end;
     i = end;
 
-    for _ in 0..(allele_count - 1) {
+    for _ in 0..alternate_allele_count {
         let (_, end) = consume_string(&mut buf, i)?;
         i = end;
     }
@@ -223,5 +232,77 @@ impl Default for Fields {
             samples_buf: Vec::new(),
             bounds,
         }
+    }
+}
+
+#[cfg(test)]
+mod tests {
+    use super::*;
+
+    fn build_site_buf(allele_count: u16, data: &[u8]) -> Vec<u8> {
+        let mut buf = vec![
+            0x00, 0x00, 0x00, 0x00, // chrom = 0
+            0x00, 0x00, 0x00, 0x00, // pos = 0 (0-based)
+            0x01, 0x00, 0x00, 0x00, // rlen = 1
+            0x01, 0x00, 0x80, 0x7f, // qual = None
+            0x00, 0x00, // n_info = 0
+        ];
+
+        buf.extend(allele_count.to_le_bytes());
+        buf.extend([0x00, 0x00, 0x00]); // n_sample = 0
+        buf.push(0x00); // n_fmt = 0
+        buf.extend(data);
+
+        buf
+    }
+
+    #[test]
+    fn test_index() -> io::Result<()> {
+        let mut fields = Fields::default();
+
+        *fields.site_buf_mut() = build_site_buf(
+            2,
+            &[
+                0x37, b'n', b'd', b'0', // ids = "nd0"
+                0x17, b'A', // ref = A
+                0x17, b'C', // alt = C
+                0x11, 0x00, // filters = [0]
+            ],
+        );
+
+        fields.index()?;
+
+        assert_eq!(fields.bounds.ids_range(), 25..28);
+        assert_eq!(fields.bounds.reference_bases_range(), 29..30);
+        assert_eq!(fields.bounds.alternate_bases_range(), 30..32);
+        assert_eq!(fields.bounds.filters_range(), 32..34);
+
+        Ok(())
+    }
+
+    #[test]
+    fn test_index_with_invalid_site_data() {
+        fn t(allele_count: u16, data: &[u8], expected: io::ErrorKind) {
+            let mut fields = Fields::default();
+            *fields.site_buf_mut() = build_site_buf(allele_count, data);
+            assert!(matches!(fields.index(), Err(e) if e.kind() == expected));
+        }
+
+        // The reference bases are truncated.
+        t(
+            1,
+            &[0x07, 0x47, b'A', b'C', b'G'],
+            io::ErrorKind::UnexpectedEof,
+        );
+
+        // The filters are truncated.
+        t(
+            1,
+            &[0x07, 0x17, b'A', 0x21, 0x00],
+            io::ErrorKind::UnexpectedEof,
+        );
+
+        // There is no reference allele.
+        t(0, &[0x07, 0x17, b'A', 0x00], io::ErrorKind::InvalidData);
     }
 }
